@@ -70,7 +70,7 @@ def _run(shard, nshards):
         warnings.simplefilter("ignore")
         logging.disable(logging.CRITICAL)
         root = _repo()
-        evals, distinct, failures, samples = 0, set(), [], []
+        evals, distinct, failures, samples, skipped = 0, set(), [], [], []
         idx = 0
         nets = NETS if tier == "thorough" else NETS[:-1]
         for (rel, hours) in nets:
@@ -100,6 +100,12 @@ def _run(shard, nshards):
                     except Exception as e:
                         failures.append(dict(net=rel, rule=with_rule, pause_h=pause_h, raised=repr(e)[:200]))
                         continue
+                    if full.error_code is not None:
+                        skipped.append((rel, with_rule, pause_h))      # the uninterrupted run reports non-convergence: its results are partial, no reference to compare with
+                        continue
+                    if r1.error_code is not None or r2.error_code is not None:
+                        failures.append(dict(net=rel, rule=with_rule, pause_h=pause_h, raised="a part reports non-convergence (error_code %r / %r) where the uninterrupted run converges" % (r1.error_code, r2.error_code)))
+                        continue
                     evals += 1
                     distinct.add((rel, with_rule, pause_h))
                     t1, t2, tf = list(r1.node["head"].index), list(r2.node["head"].index), list(full.node["head"].index)
@@ -118,7 +124,8 @@ def _run(shard, nshards):
                         samples.append(dict(net=rel, rule=with_rule, pause_at_s=pause_h * 3600, continued_times=t2[:2], max_abs_difference=worst))
         return dict(evaluations=evals, distinct_nontrivial=len(distinct), failures=failures[:10], samples=samples, exhaustive=False,
                     scope="shard %d/%d: %d networks x {as is, + time rule with ELSE} x pause points; pickle round trip between the parts; "
-                          "heads, demands, flows, statuses of the concatenation vs one run (1e-6 abs)" % (shard, nshards, len(nets)))
+                          "heads, demands, flows, statuses of the concatenation vs one run (1e-6 abs); %d cases skipped because the uninterrupted "
+                          "run itself reported non-convergence (no reference)" % (shard, nshards, len(nets), len(skipped)))
     return run
 
 
